@@ -229,7 +229,7 @@ def gen_scenario(rng, force: dict | None = None) -> dict:
             kind = rng.random()
             if kind < 0.5 and len(rels) > 1:
                 t = rng.choice(rels)            # may be itself or main: cycles
-                p = os.path.relpath(t, here or '.')
+                p = glob_mod.escape(os.path.relpath(t, here or '.'))     # a literal file name, as a user must write it
                 if rng.random() < 0.25:
                     p = './' + p
                 if rng.random() < 0.15 and here:
@@ -738,7 +738,8 @@ def describe(scn, obs) -> dict:
     eol = 'crlf' if any('\r\n' in t for t in scn['files'].values()) else 'lf'
     return {'mode': scn['mode'], 'files': sorted(scn['files']), 'incs': scn['incs'], 'cwd': scn['cwd'],
             'root': scn['root'], 'eol': eol, 'edits': scn['edits'], 'removes': scn['removes'],
-            'adds': [a[0] for a in scn['adds']], 'raise': scn['raise'], 'stage': obs['stage']}
+            'adds': [a[0] for a in scn['adds']], 'rekeys': scn.get('rekeys', []), 'raise': scn['raise'],
+            'stage': obs['stage']}
 
 
 def run_scenarios(ctx, cfg, scns: list[dict]):
@@ -753,6 +754,8 @@ def run_scenarios(ctx, cfg, scns: list[dict]):
         ctx.dist('stage=' + obs['stage'])
         ctx.dist(f'files={n_files}')
         ctx.dist('raise=' + str(scn['raise']))
+        ctx.dist('rekeyed=' + str(min(2, len(scn.get('rekeys', [])))))
+        ctx.dist('magic-dirs=' + str(any(MAGIC & set(os.path.dirname(r)) for r in scn['files'])))
         ctx.dist('eol=' + ('crlf' if any('\r\n' in t for t in scn['files'].values()) else 'lf'))
         if scn['mode'] == 'rec' and obs['keys'] is not None:
             ctx.dist(f'visited={len(obs["keys"])}')
